@@ -237,3 +237,24 @@ pub const FLOORS: &[(&str, u64, u64)] = &[
     ("direct_ok:lazy-approved", 20, 200),
     ("direct_ok:lazy-allowance", 10, 100),
 ];
+
+// ------------------------------------------------------------------ guards of the permissioned forwarder
+// examples/fee-forwarder-permissioned is anchored in C19: its role guards (`forward` by an executor, the allow-list and
+// `sweep_tokens` by the manager) are audited by the table-driven guard audit of props/c06b.rs, restricted to this example
+// and reported under C19 (a fee token is accepted / the collected fees leave the forwarder only with the manager's consent).
+pub fn guards_strategy(_tier: Tier) -> BoxedStrategy<super::c06b::GCase> {
+    super::c06b::strategy_for_example("fee-forwarder-permissioned")
+}
+pub fn run_guards(case: &super::c06b::GCase, ctx: &mut Ctx) -> R {
+    super::c06b::run(case, ctx).map_err(|mut v| {
+        v.signature = v.signature.replacen("C06/example-guards/", "C19/guards/", 1);
+        v
+    })
+}
+pub const GUARD_FLOORS: &[(&str, u64, u64)] = &[
+    ("eg_exact_ok:fee-forwarder-permissioned.forward", 20, 200),
+    ("eg_exact_ok:fee-forwarder-permissioned.enable_fee_token", 20, 200),
+    ("eg_exact_ok:fee-forwarder-permissioned.disable_fee_token", 20, 200),
+    ("eg_exact_ok:fee-forwarder-permissioned.sweep_tokens", 20, 200),
+    ("eg:fee-forwarder-permissioned.sweep_tokens:stranger-signs", 5, 50),
+];
